@@ -29,6 +29,9 @@ def build_arg(name, td, inputs):
         if name in inputs and inputs[name] is None:
             return None
         return build_arg(name, td.args[0], inputs)
+    if k == "pairlist":
+        v = inputs.get(name)
+        return [tuple(x) for x in (v.get("pairlist") or [])] if isinstance(v, dict) else []
     if k == "chunks":
         import collections
         v = inputs.get(name)
